@@ -133,11 +133,11 @@ def eval_mask(df, text):
     return [bool(x) if x is not pd.NA and x is not None and x == x else False for x in m.tolist()]
 
 
-def rename_fields(rng, inp):
+def rename_fields(rng, inp, collisions=False):
     """rename some fields to names that are not identifiers (the condition then needs backticks)"""
     names = [n for n, _ in inp["schema"]]
     types_ = [t for _, t in inp["schema"]]
-    if len(names) >= 2 and types_[0] == types_[1] and types_[0] in ("int64", "double") and rng.random() < 0.35:
+    if collisions and len(names) >= 2 and types_[0] == types_[1] and types_[0] in ("int64", "double") and rng.random() < 0.35:
         # two field names that pandas' name cleaning maps to ONE identifier: a condition naming the first must be evaluated on
         # the first (conditions naming both are pandas' own limitation - plain DataFrame.query gets them wrong; with a sibling of
         # another type even a condition naming one can fail inside pandas - and are not generated: same-typed numeric siblings, one
@@ -180,7 +180,7 @@ def generate(ctx):
             if inp["built"][0] != "ok":
                 continue
             schema = inp["schema"]
-            names = rename_fields(rng, inp)
+            names = rename_fields(rng, inp, collisions=True)
             nest = rng.choice(["n", "n", "n", "my nest"])
             arr = inp["arr"]
             if names != [n for n, _ in schema]:
